@@ -97,11 +97,6 @@ func compareInt(i *SexpInt, expr Sexp) (int, error) {
 		case *int64:
 			return signumInt(i.Val - *z), nil
 		}
-		P("compareInt(): ifa = %v/%T", ifa, ifa)
-		P("compareInt(): r.Elem() = %v/%T", r.Elem(), r.Elem())
-		P("compareInt(): r.Elem().Interface() = %v/%T", r.Elem().Interface(), r.Elem().Interface())
-		P("compareInt(): r.Elem().Type() = %v/%T", r.Elem().Type(), r.Elem().Type())
-		P("compareInt(): r.Elem().Type().Name() = %v/%T", r.Elem().Type().Name(), r.Elem().Type().Name())
 	}
 	errmsg := fmt.Sprintf("err 92: cannot compare %T to %T", i, expr)
 	return 0, errors.New(errmsg)
